@@ -47,6 +47,10 @@ SKELETONS = {
     "noops": ["ins", "ins", "upd_nochange", "rm_nomatch"],
     # the row with the symbolic content survives two successive rewrites of the file
     "two_rewrites": ["ins", "ins", "ins", "upd", "rm_last", "upd_again"],
+    # a single (possibly still buffered) row, then everything removed, then more data / close
+    "remove_all_one": ["ins", "rmall", "ins"],
+    "remove_all_close": ["ins", "rmall"],
+    "remove_everything_one": ["ins", "rm_every", "ins"],
 }
 
 
@@ -111,6 +115,8 @@ def h_file(params):
                     apply_op(h, ("upd", ("tag", "j", "==", "x"), {"fields": {"f": 2}}))
                 elif op == "rm":
                     apply_op(h, ("rm", ("tag", "j", "==", None)))
+                elif op == "rm_every":
+                    apply_op(h, ("rm", ("tag_exists", "k")))
                 elif op == "rm_last":
                     apply_op(h, ("rm", ("field", "f", "==", 0)))
                 elif op == "upd_again":
